@@ -41,6 +41,8 @@ def run(ck, facts, tier):
     _run(ck, facts, tier)
     # the statement's "derivative returned for each function" also covers the basis evaluated at a dual-number abscissa: those four functions lift the
     # f64 kernels by the chain rule (C15 R15.4) and must not short-circuit on the value — include that rule (guard against the mutual include).
+    from rules import pywrap
+    pywrap.run_spline_wrappers(ck, facts)          # the vectorised evaluator and the Python-facing methods reach the kernels with their arguments unchanged (R15.6)
     if not getattr(ck, "_c14_nested", False):
         ck._c14_nested = True
         try:
